@@ -8,10 +8,10 @@ SPEC = {
     'closure_dirs': ['theories/C09', 'theories/Gen/Consts.v', 'theories/Base/Outcome.v', 'theories/Wire/Item.v', 'theories/Wire/Json.v', 'theories/Wire/JsonRT.v', 'theories/Wire/JsonLeaf.v', 'theories/Wire/JsonDoc.v', 'theories/Wire/JsonDocProofs.v'],
     'harness': 'c09',
     'args': {
-        'quick': ['-num', 700, '-raw', 250, '-fast', 250, '-str', 800, '-enc', 250, '-doc', 300],
-        'thorough': ['-num', 12000, '-raw', 4000, '-fast', 4000, '-str', 12000, '-enc', 4000, '-doc', 20000],
+        'quick': ['-num', 700, '-raw', 250, '-fast', 250, '-str', 800, '-enc', 250, '-doc', 300, '-refuse', 300, '-keys', 150],
+        'thorough': ['-num', 12000, '-raw', 4000, '-fast', 4000, '-str', 12000, '-enc', 4000, '-doc', 20000, '-refuse', 6000, '-keys', 4000],
     },
-    'search_args': ['-num', 6000, '-raw', 2000, '-fast', 2000, '-str', 6000, '-enc', 2000, '-doc', 6000],
+    'search_args': ['-num', 6000, '-raw', 2000, '-fast', 2000, '-str', 6000, '-enc', 2000, '-doc', 6000, '-refuse', 3000, '-keys', 2000],
     'assumptions': [
         'strconv.ParseFloat (the slow path) is correctly rounded: a Section variable in the model; every run compares it with the Gallina reference Spec.RN on every generated literal (CNum cases)',
         'hardware float64/float32 conversion, * and / are IEEE 754 round-to-nearest-even of the exact result (modelled as Spec.rn of the exact rational); compared with the real fast path on (mantissa, exp) pairs (CFast cases)',
@@ -31,6 +31,6 @@ def main(chk):
 MANIFEST = {
     'category': 'proof',
     'technique': 'Coq proofs (structural induction over the grammar of number / string literals of any length) on executable models of readFloat, the exact float fast path, the string unescaper, quoteStr and jsonEncodeUint, against a Gallina reference written from RFC 8259 / RFC 3629 / IEEE 754; vm_compute correspondence of models AND reference against the real code, strconv and encoding/json; direct oracles on the real Decoder/Encoder',
-    'text': 'Theorems (all closed under the global context, no axioms): C09_readfloat (readFloat on ANY literal of the number grammar, any length, for fi32/fi64/fi64u: never bad, sign kept, ok => mantissa*10^exp is the exact value, else trunc/hardexp flagged), C09_num_fast (under readFloat\'s ok-guard the float64 and float32 fast paths either decline or return the bits of the correctly rounded mantissa*10^exp), C09_num (parseFloat64/32 on any literal = correctly rounded value, or exactly strconv\'s answer), C09_rn_ratio (the rounding reference depends only on the value), C09_unescape (string decoder = reference, consuming exactly the literal, for every literal outside the test-pinned class F09-2r; C09_unescape_refuted gives the witness), C09_quote / C09_quote_fn / C09_quote_selfread (quoteStr writes a literal of the grammar denoting utf8_sanitise s, both HTMLCharsAsIs settings, and the decoder reads it back), C09_uint / C09_uint_decorated (jsonEncodeUint writes the decimal digits of every u < 2^64, no leading zero; parseUint64_simple reads them back). Harness: grammar-generated literals with 0-300 zero runs, 40 significant digits, exponents +-400 and boundary mantissas through the real Decoder (bytes/io, float64/float32/interface{}) vs strconv; every (hi|lo) x 6^3 surrogate arrangement vs encoding/json; encode side and whole documents under option vectors vs json.Valid/Unmarshal/Marshal; models AND the reference evaluated in Coq on the same cases.',
+    'text': 'Theorems (all closed under the global context, no axioms): C09_readfloat (readFloat on ANY literal of the number grammar, any length, for fi32/fi64/fi64u: never bad, sign kept, ok => mantissa*10^exp is the exact value, else trunc/hardexp flagged), C09_num_fast (under readFloat\'s ok-guard the float64 and float32 fast paths either decline or return the bits of the correctly rounded mantissa*10^exp), C09_num (parseFloat64/32 on any literal = correctly rounded value, or exactly strconv\'s answer), C09_rn_ratio (the rounding reference depends only on the value), C09_unescape (string decoder = reference, consuming exactly the literal, for every literal outside the test-pinned class F09-2r; C09_unescape_refuted gives the witness), C09_quote / C09_quote_fn / C09_quote_selfread (quoteStr writes a literal of the grammar denoting utf8_sanitise s, both HTMLCharsAsIs settings, and the decoder reads it back), C09_uint / C09_uint_decorated (jsonEncodeUint writes the decimal digits of every u < 2^64, no leading zero; parseUint64_simple reads them back), C09_number_literal (jsonIsNumberLiteral, the F09-4 guard on quoted map keys under MapKeyAsString, accepts exactly the texts of the number grammar). Harness: raw bytes through readFloat/parseUint64_simple/parseFloat64,32 (bad => refused); tokens outside the grammar that are refused today must stay refused (bare, array, map value, float-keyed map key; float64/float32/interface{}; bytes/io); map[interface{}]interface{} with number-like non-number string keys and real numbers under MapKeyAsString both directions; grammar-generated literals with 0-300 zero runs, 40 significant digits, exponents +-400 and boundary mantissas through the real Decoder (bytes/io, float64/float32/interface{}) vs strconv; every (hi|lo) x 6^3 surrogate arrangement vs encoding/json; encode side and whole documents under option vectors vs json.Valid/Unmarshal/Marshal; models AND the reference evaluated in Coq on the same cases.',
     'note': 'Trusted: Coq kernel, hand-written models (correspondence-checked), Spec.rn as the definition of IEEE rounding (compared with strconv on every literal), strconv/encoding/json as oracles, Gen/Consts.v translator. C09_doc (whole documents: containers, whitespace, Indent, MapKeyAsString, TermWhitespace) is covered by the doc stream oracle only, not by a theorem; the executable reference reader Spec.unescape is tied to the relational grammar by C09_unescape_std (parse . render = id). Known finding F09-2-residual: a surrogate escape immediately followed by a non-pairing \\u escape yields one U+FFFD (pinned by the upstream test suite).',
 }
